@@ -162,9 +162,41 @@ def no_shared_state(O):
     for cell in ("Cell<", "RefCell<", "OnceLock<", "OnceCell<", "Mutex<", "RwLock<", "Atomic", "LazyLock<", "UnsafeCell<"):
         if cell in body:
             bad.append("TestCase has a field with interior mutability (%s)" % cell.rstrip("<"))
+    # no state outside the iterator: the crate defines no mutable statics and no thread-locals, and no run-time body
+    # touches one (scan of every item and every call of the MIR; read-only tables are `static` items of array / struct
+    # type without interior mutability - listed in the note)
+    statics = []
+    for name, f in m.funcs.items():
+        if f.kind in ("static", "static mut"):
+            ty = f.ret_ty or ""
+            if f.kind == "static mut" or any(c in ty for c in ("Cell<", "Lock<", "Mutex<", "Atomic", "LocalKey", "Once")):
+                bad.append("mutable global state: static %s: %s" % (name, ty[:60]))
+            else:
+                statics.append("%s: %s" % (name.split("::")[-1], ty[:40]))
+    # (RefCell / Cell inside iterator-owned state, e.g. the context's generator, is not shared state)
+    rx = re.compile(r"LocalKey|thread_local|thread::local|OnceLock|LazyLock|Mutex<|RwLock<|Atomic[A-Z]")
+    for name, f in m.funcs.items():
+        hit = None
+        for ty in list(f.locals.values()) + [t for _, t in f.params] + [f.ret_ty or ""]:
+            if ty and rx.search(ty):
+                hit = ty
+                break
+        if hit is None:
+            for bb, (stmts, term) in f.blocks.items():
+                if term and term[0] == "call" and rx.search(str(term[2])):
+                    hit = str(term[2])
+                    break
+        if hit is not None and not re.search(r"dig\.rs|errors\.rs|::fmt$", name):
+            bad.append("%s uses shared or interior-mutable state (%s)" % (name.split("::")[-1], hit[:70]))
+    O.note("read-only statics: %s" % (", ".join(sorted(statics)) or "none"))
     O.rec["paths"] += 1
+    seen_bad = set()
     for b_ in bad:
-        O.violation(b_, None, dict(R.facts, what=b_), R.battery, R.judge, b_)
+        key = re.sub(r"\d+", "N", b_)[:60]
+        if key in seen_bad:
+            continue
+        seen_bad.add(key)
+        O.violation(b_, None, dict(R.facts, what=key), R.battery, R.judge, b_)
 
 
 @obligation("C15/swap-restored", desc="a fault on one row leaves the evaluation context as a fault-free run would (variable "
@@ -180,4 +212,6 @@ def reads_recorded(O):
     from . import C11
     W = dri.WithRep(O, rep())
     C11.SCOPE_OBS["let"](W)
+    C11.SCOPE_OBS["loop"](W)
+    C11.SCOPE_OBS["repeat"](W)
     C11.identifier_read(W)
